@@ -31,6 +31,7 @@ type AuthOpts struct {
 	CodeSecret   []byte
 	ProxyID      string
 	ProxySecret  string
+	HostedDomain string // google: the hosted domain (`hd`) the deployment is configured for
 	CookieDomain string
 }
 
@@ -100,6 +101,9 @@ func NewAuth(o AuthOpts, idp *FakeIdP) (*Auth, error) {
 		ClientConfig: auth.ClientConfig{ID: "idp-client-id", Secret: "idp-client-secret"}}
 	pc.GroupCacheConfig.CacheIntervalConfig.Provider = time.Hour
 	pc.GroupCacheConfig.CacheIntervalConfig.Refresh = time.Hour
+	if o.Provider == "google" && o.HostedDomain != "" {
+		pc.GoogleProviderConfig.HostedDomain = o.HostedDomain
+	}
 	if o.Provider == "okta" {
 		pc.OktaProviderConfig = auth.OktaProviderConfig{OrgURL: idp.Host(), ServerID: "srv"}
 	}
